@@ -337,7 +337,16 @@ func (rpc *RPC) LogValue() slog.Value {
 // further (e.g. Message data is bigger than the RPC limit), then it will be
 // returned as an oversized RPC. The caller should filter out oversized RPCs.
 func (rpc *RPC) split(limit int) iter.Seq[RPC] {
-	return func(yield func(RPC) bool) {
+	return func(yieldRPC func(RPC) bool) {
+		// Never hand out an RPC that carries nothing (e.g. when the very
+		// first element is already larger than the limit).
+		yield := func(r RPC) bool {
+			if rpcIsEmpty(&r) {
+				return true
+			}
+			return yieldRPC(r)
+		}
+
 		nextRPC := RPC{from: rpc.from}
 
 		{
@@ -407,6 +416,26 @@ func (rpc *RPC) split(limit int) iter.Seq[RPC] {
 			}
 		}
 
+		// The partial message and test extensions are single elements
+		if rpc.Partial != nil {
+			if nextRPC.Partial = rpc.Partial; nextRPC.Size() > limit {
+				nextRPC.Partial = nil
+				if !yield(nextRPC) {
+					return
+				}
+				nextRPC = RPC{RPC: pb.RPC{Partial: rpc.Partial}, from: rpc.from}
+			}
+		}
+		if rpc.TestExtension != nil {
+			if nextRPC.TestExtension = rpc.TestExtension; nextRPC.Size() > limit {
+				nextRPC.TestExtension = nil
+				if !yield(nextRPC) {
+					return
+				}
+				nextRPC = RPC{RPC: pb.RPC{TestExtension: rpc.TestExtension}, from: rpc.from}
+			}
+		}
+
 		// Merge/Append Control messages
 		if ctl := rpc.Control; ctl != nil {
 			if nextRPC.Control == nil {
@@ -417,6 +446,16 @@ func (rpc *RPC) split(limit int) iter.Seq[RPC] {
 						return
 					}
 					nextRPC = RPC{RPC: pb.RPC{Control: &pb.ControlMessage{}}, from: rpc.from}
+				}
+			}
+
+			if ctl.Extensions != nil {
+				if nextRPC.Control.Extensions = ctl.Extensions; nextRPC.Size() > limit {
+					nextRPC.Control.Extensions = nil
+					if !yield(nextRPC) {
+						return
+					}
+					nextRPC = RPC{RPC: pb.RPC{Control: &pb.ControlMessage{Extensions: ctl.Extensions}}, from: rpc.from}
 				}
 			}
 
@@ -499,6 +538,33 @@ func (rpc *RPC) split(limit int) iter.Seq[RPC] {
 					}
 				}
 			}
+
+			for _, idontwant := range ctl.GetIdontwant() {
+				if len(nextRPC.Control.Idontwant) == 0 {
+					// As for IWANTs, a single IDONTWANT per RPC is enough.
+					newIDontWant := &pb.ControlIDontWant{}
+					if nextRPC.Control.Idontwant = append(nextRPC.Control.Idontwant, newIDontWant); nextRPC.Size() > limit {
+						nextRPC.Control.Idontwant = nextRPC.Control.Idontwant[:len(nextRPC.Control.Idontwant)-1]
+						if !yield(nextRPC) {
+							return
+						}
+						nextRPC = RPC{RPC: pb.RPC{Control: &pb.ControlMessage{
+							Idontwant: []*pb.ControlIDontWant{newIDontWant},
+						}}, from: rpc.from}
+					}
+				}
+				for _, msgID := range idontwant.GetMessageIDs() {
+					if nextRPC.Control.Idontwant[0].MessageIDs = append(nextRPC.Control.Idontwant[0].MessageIDs, msgID); nextRPC.Size() > limit {
+						nextRPC.Control.Idontwant[0].MessageIDs = nextRPC.Control.Idontwant[0].MessageIDs[:len(nextRPC.Control.Idontwant[0].MessageIDs)-1]
+						if !yield(nextRPC) {
+							return
+						}
+						nextRPC = RPC{RPC: pb.RPC{Control: &pb.ControlMessage{
+							Idontwant: []*pb.ControlIDontWant{{MessageIDs: []string{msgID}}},
+						}}, from: rpc.from}
+					}
+				}
+			}
 		}
 
 		if nextRPC.Size() > 0 {
@@ -507,6 +573,36 @@ func (rpc *RPC) split(limit int) iter.Seq[RPC] {
 			}
 		}
 	}
+}
+
+// rpcIsEmpty reports whether the RPC carries no element at all: no
+// subscription, message, GRAFT, PRUNE, extension, and no IHAVE / IWANT /
+// IDONTWANT message ID.
+func rpcIsEmpty(r *RPC) bool {
+	if len(r.Subscriptions) > 0 || len(r.Publish) > 0 || r.Partial != nil || r.TestExtension != nil {
+		return false
+	}
+	if c := r.Control; c != nil {
+		if len(c.Graft) > 0 || len(c.Prune) > 0 || c.Extensions != nil {
+			return false
+		}
+		for _, x := range c.Ihave {
+			if len(x.MessageIDs) > 0 {
+				return false
+			}
+		}
+		for _, x := range c.Iwant {
+			if len(x.MessageIDs) > 0 {
+				return false
+			}
+		}
+		for _, x := range c.Idontwant {
+			if len(x.MessageIDs) > 0 {
+				return false
+			}
+		}
+	}
+	return true
 }
 
 // pbFieldNumberLT15Size is the number of bytes required to encode a protobuf
